@@ -54,6 +54,7 @@ func init() {
 	vpRegister("vpH_C01_build", vpH_C01_build)
 	vpRegister("vpH_C01_wide", vpH_C01_wide)
 	vpRegister("vpH_C01_later", vpH_C01_later)
+	vpRegister("vpH_C01_chunks", vpH_C01_chunks)
 }
 
 func vpC01Check(g *vpGen, docs []*vpDoc, mode uint32) {
@@ -118,4 +119,19 @@ func vpH_C01_later() {
 	obs := vpObserve(seg, []string{"zz"}, []string{"q"})
 	vpMatchesModel("built, after later builds", obs, exp, vpMatchOpts{})
 	vpReach("C01 later end")
+}
+
+// C01 with several chunks per postings list: 3..4 documents under the fixed
+// chunk sizes 1 and 2, so that terms start, end and skip chunks (a term in the
+// first document only followed by a term in the first and the last, ...).
+func vpH_C01_chunks() {
+	g := vpNewGen(0)
+	max := 3
+	if vpThorough() {
+		max = 4
+	}
+	docs := g.batch("b", 3, max, []int{1, 2, 3, 9})
+	mode := []uint32{1, 2}[vpChoice("mode", 2)]
+	vpC01Check(g, docs, mode)
+	vpReach("C01 chunks end")
 }
